@@ -125,7 +125,9 @@ class ModesD(D):
 gp = R.contracts[HY + "generate_parameter"]
 gp.returns = _vc
 gp.call_ensures = {}
-gp.effects = {}
+gp.effects = {"label_given": "{**ghost('label_given'), location: result.generator}"}  # ghost: which label the generator attached to each location's data
+
+
 def _reject(it, a, k):
     from pyvc.interp import PyExc
 
@@ -154,7 +156,11 @@ R.contract(
         "negative_case_has_a_negative_part": "implies(generation_mode is NEGATIVE(), any(result.meta.components[k].mode is NEGATIVE() and part_is_present(result, k) for k in result.meta.components))",
         # every part that carries a label is actually present in the case
         "every_labelled_part_is_present": "all(part_is_present(result, k) for k in result.meta.components)",
+        # C02 "every part labelled negative violates its schema, every part labelled positive conforms": the label recorded for a part is the one its generator
+        # produced the data under (a location that could not be negated and fell back to positive data is labelled POSITIVE, not with the requested mode)
+        "every_part_carries_the_label_its_data_was_generated_under": "all(result.meta.components[k].mode is ghost('label_given')[location_of_kind(k)] for k in result.meta.components if k.name != 'BODY')",
     },
+    ghost={"label_given": {}},
     raises_ensures={
         "skipped_only_when_nothing_can_be_negated_and_only_negative_mode": "implies(raised == 'SkipTest', generation_mode is NEGATIVE() and length(generation_config.modes) == 1 and generation_config.modes[0] is NEGATIVE())",
         "rejected_only_in_negative_mode": "generation_mode is NEGATIVE()",
@@ -172,6 +178,7 @@ def _part_is_present(it, case, kind):
 
 
 R.spec_funcs["part_is_present"] = _part_is_present
+R.spec_funcs["location_of_kind"] = lambda it, kind: {"QUERY": "query", "PATH_PARAMETERS": "path", "HEADERS": "header", "COOKIES": "cookie"}[kind.fields["name"]]
 if live_finding("F02a"):
     # region of known finding F02a: a location WITHOUT a value (no parameters: the drawn value is None) still gets a label
     _old_vc = _vc
